@@ -35,7 +35,8 @@ def case_size(case):
     from snaxc.dialects.tsl import TiledStridedLayoutAttr
     from snaxc.transforms.memref_to_snax import MemrefToSNAX
 
-    kind, bounds, elw = case
+    kind, bounds, elw = case[:3]
+    dynsteps = case[3] if len(case) > 3 else None  # kind "tsl_dynstep": steps given, None = only known at run time
     el = elw // 8
     rank = len(bounds)
 
@@ -46,7 +47,10 @@ def case_size(case):
         for bs in bounds:
             shape.append(DYNAMIC_INDEX if bs[0] is None else int(np.prod(bs)))
         dyn_ops = [test.TestOp(result_types=[IndexType()]) for s in shape if s == DYNAMIC_INDEX]
-        if kind in ("tsl", "tsl_dynoff"):
+        if kind == "tsl_dynstep":
+            steps, off = dynsteps, 0
+            layout = TiledStridedLayoutAttr(mk_tsl(bounds, steps, 0))
+        elif kind in ("tsl", "tsl_dynoff"):
             steps = [[get(f"s{d}_{k}") for k in range(len(bs))] for d, bs in enumerate(bounds)]
             # `offset: ?`: the offset is only known at run time; no compile-time size covers it, so the only right
             # answer is to refuse the allocation
@@ -109,6 +113,15 @@ def case_size(case):
             E.assume(off >= 0)
         E.oblige("lowered:one_snax_alloc", z3.BoolVal(len(allocs) == 1 and "size" in got))
         if "size" not in got:
+            return
+        if kind == "tsl_dynstep":
+            # steps only known at run time: whatever they turn out to be, distinct elements need distinct slots
+            numel = z3.IntVal(1)
+            for dsz in dimsize:
+                numel = numel * dsz
+            E.oblige("size:at_least_one_slot_per_element", got["size"] >= numel * el, dict(bounds=str(bounds), steps=str(dynsteps), width=elw))
+            for d in range(rank):
+                E.oblige("shape_operands:equal_run_time_shape", got["shapes"][d] == dimsize[d])
             return
         x = [z3.Int(f"x{d}") for d in range(rank)]
         for xi, n in zip(x, dimsize):
@@ -452,6 +465,13 @@ def run(chk):
             if elw == 8 or not quick:
                 cases.append(("tsl_dynoff", b, elw))
             cases.append(("none", [[x[0]] if x[0] is None else [int(np.prod(x))] for x in b], elw))
+    # steps only known at run time (row-major / tiled with a dynamic inner extent), static bounds next to them
+    for elw in (8, 32):
+        cases.append(("tsl_dynstep", [[4], [None, 4]], elw, [[None], [None, 1]]))
+        cases.append(("tsl_dynstep", [[2, 4], [None, 4]], elw, [[None, 4], [None, 1]]))
+        cases.append(("tsl_dynstep", [[2, 4], [None, 4]], elw, [[16, 4], [None, 32]]))
+        cases.append(("tsl_dynstep", [[None, 2], [None, 4]], elw, [[None, 4], [None, 1]]))
+        cases.append(("tsl_dynstep", [[3], [5], [None]], elw, [[None], [None], [1]]))
     if only in (None, "size"):
         chk.add_results("allocation_size", pmap(case_size, cases, chunks=2))
     acases = [c for k in (1, 2, 3) for c in itertools.product((1, 4, 64), repeat=k)] + [(8, 2, 64, 4)]
